@@ -1,6 +1,7 @@
 package main
 
 import (
+	"bytes"
 	"crypto/sha256"
 	"encoding/json"
 	"fmt"
@@ -198,6 +199,9 @@ func (g *seqGen) randomOp(recent *[]plan.Op) {
 			op.Buf, op.E = id, hx(g.bufs[id])
 		} else {
 			op.E = hx(r.Bytes(size))
+			if r.Intn(2) == 0 {
+				op.Cap = 1 + r.Intn(24) // spare capacity behind the slice, watched for writes
+			}
 		}
 	case k < 50: // CheckMnemonic / IsMnemonicValid on valid and defective sentences
 		s := g.validSentence(sl)
@@ -251,9 +255,69 @@ func (g *seqGen) randomOp(recent *[]plan.Op) {
 	}
 }
 
+// memoHunt appends call patterns that expose memo/cache style state: the same
+// string asked under another language right after it was accepted, the same words
+// in another spelling, a near miss right after a hit, the same entropy under
+// another language, the same seed arguments and almost the same ones.
+func (g *seqGen) memoHunt(rounds int) {
+	r, m := g.r, g.e.Model
+	for k := 0; k < rounds; k++ {
+		l := r.Intn(ref.NLang)
+		l2 := (l + 1 + r.Intn(ref.NLang-1)) % ref.NLang
+		if l <= 1 && r.Intn(2) == 0 {
+			l2 = 1 - l // the two Chinese lists share 1275 words
+		}
+		ent := r.Bytes(ref.EntSizes[r.Intn(5)])
+		w := m.Words(ent, l)
+		s := strings.Join(w, " ")
+		wide := strings.Join(w, "\u3000")
+		bad := append([]string(nil), w...)
+		bad[len(bad)-1] = m.List[l][m.Index[l][bad[len(bad)-1]]^1]
+		bad2 := append([]string(nil), w...)
+		bad2[0], bad2[1] = bad2[1], bad2[0]
+		for _, op := range []plan.Op{
+			{Fn: "chk", L: int64(l), S: hxs(s)},
+			{Fn: "chk", L: int64(l2), S: hxs(s)},
+			{Fn: "val", L: int64(l2), S: hxs(s)},
+			{Fn: "val", L: int64(l), S: hxs(s)},
+			{Fn: "chk", L: int64(l), S: hxs(strings.Join(bad, " "))},
+			{Fn: "val", L: int64(l), S: hxs(strings.Join(bad, "\u3000"))},
+			{Fn: "chk", L: int64(l), S: hxs(wide)},
+			{Fn: "chk", L: int64(l2), S: hxs(wide)},
+			{Fn: "chk", L: int64(l), S: hxs(strings.Join(bad2, " "))},
+			{Fn: "chk", L: int64(l), S: hxs(s + " " + w[0])},
+			{Fn: "chk", L: int64(l), S: hxs(s)},
+			{Fn: "enc", L: int64(l), E: hx(ent), Keep: true, Cap: 8},
+			{Fn: "enc", L: int64(l2), E: hx(ent), Keep: true},
+			{Fn: "enc", L: int64(l), E: hx(append(append([]byte(nil), ent[:len(ent)-1]...), ent[len(ent)-1]^1)), Keep: true},
+			{Fn: "seed", S: hxs(s), P: hxs("p"), Keep: true},
+			{Fn: "seed", S: hxs(s), P: hxs("p"), Keep: true},
+			{Fn: "seed", S: hxs(s), P: hxs("q"), Keep: true},
+			{Fn: "seed", S: hxs(wide), P: hxs("p"), Keep: true},
+			{Fn: "seed", S: hxs(strings.Join(bad, " ")), P: hxs("p"), Keep: true},
+			// the same concatenation split at another place: (a+b, c) and (a, b+c)
+			{Fn: "seed", S: hxs(s), P: hxs(" tail"), Keep: true},
+			{Fn: "seed", S: hxs(s + " "), P: hxs("tail"), Keep: true},
+			{Fn: "seed", S: hxs(s + " tail"), P: hxs(""), Keep: true},
+			{Fn: "seed", S: hxs(""), P: hxs(s + " tail"), Keep: true},
+			{Fn: "seed", S: hxs(s[:len(s)/2]), P: hxs(s[len(s)/2:]), Keep: true},
+			{Fn: "seed", S: hxs(s), P: hxs(""), Keep: true},
+			{Fn: "seed", S: hxs("mnemonic"), P: hxs(s), Keep: true},
+			{Fn: "seed", S: hxs(""), P: hxs("mnemonic" + s), Keep: true},
+			{Fn: "str", L: int64(1000 + k)},
+			{Fn: "str", L: int64(1000 + k + 64)},
+			{Fn: "str", L: int64(l)},
+			{Fn: "new", L: int64(l), N: int64(len(w)), Src: &plan.Src{Data: hx(ent)}, Keep: true},
+			{Fn: "new", L: int64(l2), N: int64(len(w)), Src: &plan.Src{Data: hx(ent)}, Keep: true},
+		} {
+			g.add(op)
+		}
+	}
+}
+
 // soloKey identifies a call independently of its position.
 func soloKey(op plan.Op) string {
-	op.I, op.Keep, op.Buf = 0, false, 0
+	op.I, op.Keep, op.Buf, op.Cap = 0, false, 0, 0
 	b, _ := json.Marshal(&op)
 	return string(b)
 }
@@ -339,9 +403,12 @@ func checkC13(e *Env) {
 			// 3. the caller-owned entropy buffer after the call
 			if op.Fn == "enc" {
 				want := bufAfterHex(op.Entropy(), op.ENil)
+				if op.Cap > 0 && op.Buf == 0 {
+					want = bufAfterHex(append(op.Entropy(), bytes.Repeat([]byte{0xA5}, op.Cap)...), false)
+				}
 				obs.Inc("entropy_buffers_reinspected")
 				if r.IA != want {
-					e.Violate(&Violation{What: fmt.Sprintf("sequence %s, call %d: NewMnemonicByEntropy modified the caller's entropy slice: passed %s, afterwards %s", tag, i, want, r.IA),
+					e.Violate(&Violation{What: fmt.Sprintf("sequence %s, call %d: NewMnemonicByEntropy modified the caller's entropy buffer (the slice passed in, followed by its spare capacity where one was given): before %s, afterwards %s", tag, i, want, r.IA),
 						Ops: g.ops[:i+1], Expected: want, Observed: r})
 					return
 				}
@@ -474,6 +541,14 @@ func checkC13(e *Env) {
 		runSequence(fmt.Sprintf("prelude(%s,%d)", pl.name, l), g, 1)
 	})
 
+	// (a'') memo-hunting patterns
+	nhunt := e.pick(32, 400)
+	parallel(nhunt, e.Workers, func(h int) {
+		g := &seqGen{e: e, r: rng.New(e.Seed, "C13-hunt-"+itoa(h)), bufs: map[int][]byte{}}
+		g.memoHunt(4)
+		runSequence("hunt"+itoa(h), g, 1)
+	})
+
 	// (b) random sequences
 	nseq := e.pick(60, 2000)
 	parallel(nseq, e.Workers, func(s int) {
@@ -497,7 +572,7 @@ func checkC13(e *Env) {
 	e.WriteEvidence("exploration", map[string]any{
 		"evaluations":                      totalOps,
 		"distinct_nontrivial":              dist.Len(),
-		"rule":                             "cases are call sequences executed in one fresh process each: (a) every ordered pair of first-used languages (10x10; thorough 13x13 incl. -1, 10, 100, three first-call kinds, two repetitions) followed by probe calls on all ten languages; (a') ten kinds of failing or unsupported first calls, each followed by first use of every language; (b) seeded random sequences of 100-300 calls (one call in five is repeated immediately, then followed by different ones) over all six functions, ten languages and unsupported values, with failing calls, repeated inputs far apart, caller-owned entropy buffers reused across calls, and NewMnemonic on scripted and default sources; every result is compared with the history-free reference model and with the same call executed alone as the first call of another fresh process (all deterministic calls in quick; one in eight of the random sequences' calls in thorough); entropy buffers are re-inspected after every call and at the end, and every retained result is re-read (digest) at the end of its sequence; non-trivial = every call with history; distinct = distinct calls (function, arguments)",
+		"rule":                             "cases are call sequences executed in one fresh process each: (a) every ordered pair of first-used languages (10x10; thorough 13x13 incl. -1, 10, 100, three first-call kinds, two repetitions) followed by probe calls on all ten languages; (a') ten kinds of failing or unsupported first calls, each followed by first use of every language; (a'') memo-hunting patterns (a string accepted under one language asked under another, the same words in another spelling, a near miss right after a hit, the same entropy under another language, identical and almost identical seed arguments, scripted sources replayed under another language); (b) seeded random sequences of 100-300 calls (one call in five is repeated immediately, then followed by different ones) over all six functions, ten languages and unsupported values, with failing calls, repeated inputs far apart, caller-owned entropy buffers reused across calls, and NewMnemonic on scripted and default sources; every result is compared with the history-free reference model and with the same call executed alone as the first call of another fresh process (all deterministic calls in quick; one in eight of the random sequences' calls in thorough); entropy buffers are re-inspected after every call and at the end, and every retained result is re-read (digest) at the end of its sequence; non-trivial = every call with history; distinct = distinct calls (function, arguments)",
 		"samples":                          smp.List(),
 		"ordered_first_use_pairs_covered":  pairs.Len(),
 		"ordered_first_use_pairs_possible": wantPairs,
